@@ -262,8 +262,8 @@ func (runInfo *runInfoStruct) invokeLetItemSlice(expr *ast.ItemExpr, item reflec
 		return
 	}
 
-	if index == item.Len() {
-		// try to do automatic append
+	if index == item.Len() && item.Kind() == reflect.Slice {
+		// try to do automatic append (an array cannot grow: index out of range below)
 		value, runInfo.err = runInfo.convertValue(value, item.Type().Elem())
 		if runInfo.err != nil {
 			runInfo.err = newStringError(expr, "type "+value.Type().String()+" cannot be assigned to type "+item.Type().Elem().String()+" for slice index")
